@@ -425,8 +425,21 @@ def decList : Reply → Res
   | .panic => .panic
   | _ => .err
 
+/-- a sign reply given as raw bytes (an agent other than the modelled server): `[14] string(sig)` with
+    `sig = string(format) string(blob) rest`; the key is unknown to the model (empty blob) -/
 def decSign : Reply → Res
   | .sig b f => .sig b f
+  | .bytes (14 :: rest) =>
+    match getStr rest with
+    | some (sb, []) =>
+      if sb.isEmpty then .err else
+      match getStr sb with
+      | none => .err
+      | some (fmt, r1) =>
+        match getStr r1 with
+        | none => .err
+        | some _ => .sig [] fmt
+    | _ => .err
   | .panic => .panic
   | _ => .err
 
